@@ -132,7 +132,7 @@ func init() {
 
 func boundaryOperands() []*Expr {
 	out := []*Expr{}
-	for _, s := range []string{"", "a", "ab", "0", "12", "-5", "abc"} {
+	for _, s := range []string{"", "a", "ab", "0", "12", "-5", "abc", "2147483648", "\u00e9t"} {
 		out = append(out, Str(s))
 	}
 	for _, n := range []int{0, 1, 2, 7, -3} {
@@ -144,7 +144,7 @@ func boundaryOperands() []*Expr {
 func TestC11Table(t *testing.T) {
 	seedNote(t)
 	StartWatchdog("C11", 60*time.Second)
-	st := NewStats("C11", "table", "exhaustive: every binary operator x every pair of boundary operands ('' 'a' 'ab' '0' '12' '-5' 'abc' 0 1 2 7 -3 true false) accepted by the documented table, every unary operator x operand; string/number results observed as the replacement of a transform, boolean results through if/else in a transform and as the predicate of a pattern; zero divisors excluded (K1); every case counts as non-trivial, distinct by rendered expression and form")
+	st := NewStats("C11", "table", "exhaustive: every binary operator x every pair of boundary operands ('' 'a' 'ab' '0' '12' '-5' 'abc' '2147483648' 'ét' 0 1 2 7 -3 true false) accepted by the documented table, every unary operator x operand; string/number results observed as the replacement of a transform, boolean results through if/else in a transform and as the predicate of a pattern; zero divisors excluded (K1); every case counts as non-trivial, distinct by rendered expression and form")
 	st.Exhaustive = true
 	defer st.Write()
 	ops := boundaryOperands()
@@ -209,7 +209,7 @@ func TestC11Trees(t *testing.T) {
 		want := eg.anyType()
 		depth := rapid.IntRange(1, 4).Draw(t, "depth")
 		e := eg.Typed(want, depth)
-		text := rapid.SampledFrom([]string{"a", "12", "0", "-5", "abc", "7", "ab"}).Draw(t, "text")
+		text := rapid.SampledFrom([]string{"a", "12", "0", "-5", "abc", "7", "ab", "4294967296", "\u00e9t\u00e9", "\u65e5x"}).Draw(t, "text")
 		forms := []string{"transform"}
 		if want == TBool {
 			forms = append(forms, "predicate")
